@@ -4,6 +4,7 @@ import (
 	"fmt"
 	"strconv"
 	"strings"
+	"verifharness/internal/rng"
 
 	"verifharness/internal/gen"
 	"verifharness/internal/impl"
@@ -144,6 +145,20 @@ func (c *Ctx) loaderCrashSweep() {
 		f := gen.InjectSchemaFaultClause(r, s, cl)
 		add(f.Sources)
 		add(f.Schema.Render(r, 1+r.Intn(4)))
+		// two and three faults at once: an error path that trusts what an earlier check would have refused
+		g := f
+		for k := 0; k < 1+r.Intn(2); k++ {
+			cl2 := gen.SchemaClauses[r.Intn(len(gen.SchemaClauses))]
+			if i%3 == 0 {
+				cl2 = []string{"interface-field-not-covariant", "undefined-type:union-member", "interface-field-missing", "wrong-kind:union-member-not-object", "undefined-type:interface"}[r.Intn(5)]
+			}
+			g2, ok := injectAgain(r, g.Schema, cl2)
+			if !ok {
+				break // the injector needs something the earlier fault removed
+			}
+			g = g2
+			add(g.Sources)
+		}
 		if i%4 == 0 {
 			add(s.Render(r, 1+r.Intn(3)))
 		}
@@ -151,6 +166,15 @@ func (c *Ctx) loaderCrashSweep() {
 	_, ss := RepoGraphQLInputs()
 	for i := 0; i < c.Pick(3000, 30000); i++ {
 		add([]string{MutateTokens(c.R, ss[c.R.Intn(len(ss))])})
+	}
+	// the corpus of the loader checks, former crash witnesses included, and its token mutations
+	for _, s := range loadCorpus() {
+		add([]string{s})
+		if len(s) < 400 {
+			for k := 0; k < 20; k++ {
+				add([]string{MutateTokens(c.R, s)})
+			}
+		}
 	}
 	out := c.Worker.Map(reqs)
 	for i, o := range out {
@@ -160,6 +184,15 @@ func (c *Ctx) loaderCrashSweep() {
 		}
 	}
 	c.Ev.Count("loader-crash-sweep", len(reqs))
+}
+
+func injectAgain(r *rng.R, s *gen.Schema, clause string) (f gen.SchemaFault, ok bool) {
+	defer func() {
+		if recover() != nil {
+			ok = false
+		}
+	}()
+	return gen.InjectSchemaFaultClause(r, s, clause), true
 }
 
 func checkC02(c *Ctx) {
